@@ -534,6 +534,14 @@ def valid_ops(rng: random.Random, s: State, tune: dict) -> list[tuple[str, float
     if s.can_pull_chips():
         out.append(('pull -', 3))
         out.append((f'pull {rng.choice(list(s.chips_pulling_indices))}', 2))
+    if not s.status:
+        # after the hand: a player still in it may table his cards voluntarily (the winner of a fold-out
+        # showing what he held) - the only thing, besides no_operate, that a finished hand accepts
+        live = [i for i in range(n) if s.statuses[i] and s.hole_cards[i] and all(s.hole_cards[i])]
+        if live:
+            i = rng.choice(live)
+            out.append((f'show T {i}', 3))
+            out.append((f'show {_cards_text(s.hole_cards[i])} {i}', 2))
     for line in boundary_probes(rng, s):
         out.append((line, 0.4))
     # keep only what the implementation's own query admits *for these arguments*
